@@ -1,5 +1,5 @@
 (* C10: packed integer arrays return exactly what was stored, for all 64-bit values. *)
-From X Require Import Base Arr BitVector CompactVector Dac Iface IfaceDac All.
+From X Require Import Base Arr BitVector CompactVector Dac Iface IfaceDac All AccessLib AccessGen AllAccess.
 Local Open Scope N_scope.
 
 Theorem C10_compact_vector : forall vs, vs <> [] -> Forall (fun x => x < 2^64) vs -> lenN vs < 2^56 ->
@@ -18,9 +18,57 @@ Theorem C10_bc_vectors : forall v units leaves,
       (nthb leaves i = true -> bc_link d i = Ok (fst (nthu units i))).
 Proof. exact bc_thm. Qed.
 
+(* the same for the accessors REGENERATED FROM THE HEADERS on every run (AccessGen.v): compact_vector::operator[],
+   and base / check / link / is_leaf / the counters of bc_vector_8, _16, _7, _15 with their DAC walks *)
+Theorem C10_source_compact_vector : forall vs, vs <> [] -> Forall (fun x => x < 2^64) vs -> lenN vs < 2^56 ->
+  exists c, cv_build vs = Ok c /\ cvg_size c = lenN vs /\ forall i, i < lenN vs -> cvg_get c i = Ok (nth (N.to_nat i) vs 0).
+Proof. exact src_cv. Qed.
+Theorem C10_source_bc_vector_8 : forall units leaves, units_ok units -> length leaves = length units -> lenN units < 2^56 ->
+  exists d, bc_build V8 units leaves = Ok (Bc8 d) /\
+  b8g_num_units d = Ok (lenN units) /\ b8g_num_free_units d = count_free_spec units 0 /\
+  b8g_num_leaves d = count_true leaves /\ b8g_num_nodes d = Ok (lenN units - count_free_spec units 0) /\
+  forall i, i < lenN units ->
+    b8g_is_leaf d i = Ok (nthb leaves i) /\ b8g_check d i = Ok (snd (nthu units i)) /\
+    (nthb leaves i = false -> b8g_base d i = Ok (fst (nthu units i))) /\
+    (nthb leaves i = true -> b8g_link d i = Ok (fst (nthu units i))).
+Proof. exact src_bc8. Qed.
+Theorem C10_source_bc_vector_16 : forall units leaves, units_ok units -> length leaves = length units -> lenN units < 2^56 ->
+  exists d, bc_build V16 units leaves = Ok (Bc8 d) /\
+  b16g_num_units d = Ok (lenN units) /\ b16g_num_free_units d = count_free_spec units 0 /\
+  b16g_num_leaves d = count_true leaves /\ b16g_num_nodes d = Ok (lenN units - count_free_spec units 0) /\
+  forall i, i < lenN units ->
+    b16g_is_leaf d i = Ok (nthb leaves i) /\ b16g_check d i = Ok (snd (nthu units i)) /\
+    (nthb leaves i = false -> b16g_base d i = Ok (fst (nthu units i))) /\
+    (nthb leaves i = true -> b16g_link d i = Ok (fst (nthu units i))).
+Proof. exact src_bc16. Qed.
+Theorem C10_source_bc_vector_7 : forall units leaves, units_ok units -> length leaves = length units -> lenN units < 2^56 ->
+  exists d, bc_build V7 units leaves = Ok (Bc7 d) /\
+  b7g_num_units d = lenN units /\ b7g_num_free_units d = count_free_spec units 0 /\
+  b7g_num_leaves d = count_true leaves /\ b7g_num_nodes d = lenN units - count_free_spec units 0 /\
+  forall i, i < lenN units ->
+    b7g_is_leaf d i = Ok (nthb leaves i) /\ b7g_check d i = Ok (snd (nthu units i)) /\
+    (nthb leaves i = false -> b7g_base d i = Ok (fst (nthu units i))) /\
+    (nthb leaves i = true -> b7g_link d i = Ok (fst (nthu units i))).
+Proof. exact src_bc7. Qed.
+Theorem C10_source_bc_vector_15 : forall units leaves, units_ok units -> length leaves = length units -> lenN units < 2^56 ->
+  exists d, bc_build V15 units leaves = Ok (Bc7 d) /\
+  b15g_num_units d = lenN units /\ b15g_num_free_units d = count_free_spec units 0 /\
+  b15g_num_leaves d = count_true leaves /\ b15g_num_nodes d = lenN units - count_free_spec units 0 /\
+  forall i, i < lenN units ->
+    b15g_is_leaf d i = Ok (nthb leaves i) /\ b15g_check d i = Ok (snd (nthu units i)) /\
+    (nthb leaves i = false -> b15g_base d i = Ok (fst (nthu units i))) /\
+    (nthb leaves i = true -> b15g_link d i = Ok (fst (nthu units i))).
+Proof. exact src_bc15. Qed.
+
+Example C10_source_nonvacuous : match bc_build V8 [(300, 0); (70000, 1); (5, 2)] [false; false; true] with
+  | Ok (Bc8 d) => b8g_base d 1 = Ok 70000 /\ b8g_check d 1 = Ok 1 /\ b8g_link d 2 = Ok 5 | _ => False end.
+Proof. vm_compute. repeat split; reflexivity. Qed.
+
 Example C10_width64 : match cv_build [1; 2^64 - 1; 5] with Ok c => cv_get c 0 = Ok 1 /\ cv_get c 1 = Ok (2^64 - 1) /\ cv_bits c = 64 | _ => False end.
 Proof. vm_compute. repeat split; reflexivity. Qed.
 Example C10_no_leaf : match bc_build V7 [(300, 0); (70000, 1)] [false; false] with Ok d => bc_base d 1 = Ok 70000 | _ => False end.
 Proof. vm_compute. reflexivity. Qed.
 
 Print Assumptions C10_compact_vector. Print Assumptions C10_bc_vectors.
+Print Assumptions C10_source_compact_vector. Print Assumptions C10_source_bc_vector_8. Print Assumptions C10_source_bc_vector_16.
+Print Assumptions C10_source_bc_vector_7. Print Assumptions C10_source_bc_vector_15.
